@@ -1,3 +1,5 @@
 pub mod chunk;
 pub mod ts;
 pub mod amf0;
+pub mod sha;
+pub mod msg;
